@@ -121,12 +121,15 @@ def cmd_check(pid, tier):
     for e in exports:
         if "error" in e:
             errors.append(e["error"])
+    exports = [e for e in exports if "error" not in e]
     if errors:
         for e in errors[:2]:
             print(f"HARNESS-ERROR property={pid} {e[:400]} ... {e[-900:]}", file=sys.stderr)
         if len(errors) > 2:
             print(f"HARNESS-ERROR property={pid} ... and {len(errors) - 2} more shard errors", file=sys.stderr)
-        return 2
+        # violations found by the shards that did finish are still reported (exit 1); otherwise inconclusive
+        if not any(x["failures"] for x in exports):
+            return 2
 
     merged = evidence.merge(exports)
     known = findings.known_for(mod.ID)
@@ -153,6 +156,8 @@ def cmd_check(pid, tier):
           f"known={len(known_hits)} wall={wall:.1f}s")
     if viol:
         return 1
+    if errors:
+        return 2
     if missing and not known_hits:
         print(f"HARNESS-ERROR property={pid} vacuity guard: required classes never generated: {missing}", file=sys.stderr)
         return 2
